@@ -35,14 +35,17 @@ fn build_barrier(raw: &Raw, droppable: bool) -> Scenario {
     let mws: Vec<CompId> = (0..nmw).map(|_| b.middleware(s)).collect();
     // subscribers: direct + channeled (blocking), whole run
     let ndirect = pick(knob(raw, 6), 3);
+    let mut early: Vec<SubId> = vec![];
     for _ in 0..ndirect {
         let sub = b.sub(SubKind::Direct);
         b.s.prelude.push(Op::Subscribe { store: s, sub });
+        early.push(sub);
     }
     if knob(raw, 7) % 2 == 0 {
         let sub = b.sub(SubKind::Channeled { cap: 1 + (knob(raw, 8) % 3) as usize, pol: Pol::Block, default_ctor: knob(raw, 8) % 5 == 0 });
         b.sub_mut(sub).stall = stall_of(knob(raw, 9));
         b.s.prelude.push(Op::Subscribe { store: s, sub });
+        early.push(sub);
     }
     // producers
     let mut late = 0;
@@ -83,6 +86,9 @@ fn build_barrier(raw: &Raw, droppable: bool) -> Scenario {
                     let it = b.iter_id();
                     Op::Iter { store: s, it, consume: Consume::UntilNone, ready: None }
                 }
+                // an unsubscribe() that may overlap the stop / drop: unsubscribing is not a shutdown,
+                // and whatever it still has to flush is flushed before the barrier is passed
+                15 if (r.k >> 4) % 4 == 3 && !early.is_empty() => Op::Unsubscribe { store: s, sub: early[pick(r.a, early.len())] },
                 _ => Op::Stall(stall_of(r.a)),
             };
             b.s.threads[th].push(op);
